@@ -1,8 +1,11 @@
+import SignaloModel.Proofs.BridgeSimple
 import SignaloModel.Proofs.ClassifyProofs
 /-!
 # C08 — Threshold, Schmitt trigger and debounce follow their reference automata
 
-Property theorems for C08 (statements are printed by `#check`, axioms by `#print axioms`;
+Property theorems for C08 (statements are printed by `#check`, axioms by `#check @Registry.schmitt_registry
+#check @Registry.debounce_registry
+#print axioms`;
 `bin/check C08` re-elaborates this file on every run and audits the axiom lists).
 -/
 open SignaloModel
@@ -16,3 +19,5 @@ open SignaloModel
 #print axioms Classify.debounce_eq_min
 #print axioms Classify.debounce_on_iff
 #print axioms Classify.runLenFrom_spec
+#print axioms Registry.schmitt_registry
+#print axioms Registry.debounce_registry
